@@ -82,6 +82,8 @@ def assigned_before_child(ctx, cls):
 
 
 def run(ctx):
+    from ..frame import check_frame_attrs
+    check_frame_attrs(ctx, 'C06', 'R4')
     P = ctx.prog
     classes = [P.cls(n) for n in PERSISTENT if P.has_cls(n)]
     ctx.floor('persistent classes', len(classes), 4)
